@@ -12,6 +12,8 @@
 mod util;
 mod fields;
 mod curves;
+mod schemes;
+mod hashes;
 
 use std::io::{BufRead, Write};
 use std::panic::{catch_unwind, AssertUnwindSafe};
@@ -23,6 +25,7 @@ static LAST_PANIC: Mutex<String> = Mutex::new(String::new());
 pub struct State {
     pub fields: fields::FieldRegs,
     pub curves: curves::CurveRegs,
+    pub hashes: hashes::HashRegs,
 }
 
 fn handle(line: &str, st: &mut State) -> util::R {
@@ -42,6 +45,18 @@ fn handle(line: &str, st: &mut State) -> util::R {
                 return Err("g <curve> <op> ...".into());
             }
             curves::dispatch(toks[1], toks[2], &toks[3..], &mut st.curves)
+        }
+        "s" => {
+            if toks.len() < 3 {
+                return Err("s <scheme> <op> ...".into());
+            }
+            schemes::dispatch(toks[1], toks[2], &toks[3..])
+        }
+        "h" => {
+            if toks.len() < 2 {
+                return Err("h <op> ...".into());
+            }
+            hashes::dispatch(toks[1], &toks[2..], &mut st.hashes)
         }
         "ping" => Ok("pong".into()),
         "cfg" => {
@@ -80,7 +95,7 @@ fn main() {
     let stdin = std::io::stdin();
     let stdout = std::io::stdout();
     let mut out = std::io::BufWriter::with_capacity(1 << 16, stdout.lock());
-    let mut st = State { fields: Default::default(), curves: Default::default() };
+    let mut st = State { fields: Default::default(), curves: Default::default(), hashes: Default::default() };
     for line in stdin.lock().lines() {
         let line = match line {
             Ok(l) => l,
